@@ -363,6 +363,33 @@ class CallMixin:
         arr = z3.Lambda([j], r.t)
         return self.new_list(r.ty, arr, z3.simplify(ln), st)
 
+    def comprehension_list(self, node, st, spec):
+        if len(node.generators) != 1 or node.generators[0].ifs:
+            raise Unsupported("list comprehension with filter / nested loops")
+        gen = node.generators[0]
+        it = self.ev(gen.iter, st, spec)
+        if isinstance(it, PyVal) and it.kind == "range":
+            e, arr, off, ln = INT, None, it.lo, z3.If(it.hi - it.lo >= 0, it.hi - it.lo, 0)
+        else:
+            e, arr, off, ln = self.seq_of(it, st, spec)
+        j = self.ctx.fresh("j", z3.IntSort())
+        elem = SV(INT, j + off) if arr is None else SV(e, arr[_ix(j, off)])
+        saved = st.bound
+        st.bound = dict(saved)
+        st.qdepth += 1
+        try:
+            self.bind_target(gen.target, elem, st, bound=True)
+            r = self.ev(node.elt, st, spec)
+        finally:
+            st.bound = saved
+            st.qdepth -= 1
+        if not is_sv(r) or r.ty.kind not in ("int", "real", "bool", "ref", "list"):
+            raise Unsupported("comprehension element %r" % (r,))
+        a2 = self.defined_array("comp", z3.ArraySort(z3.IntSort(), sort_of(r.ty)), lambda t: z3.substitute(r.t, (j, t)), st)
+        if spec:
+            return mk_seq(r.ty, a2, z3.IntVal(0), z3.simplify(ln))
+        return self.new_list(r.ty, a2, z3.simplify(ln), st)
+
     def bi_sum(self, args, kwargs, st, spec):
         v = args[0]
         if isinstance(v, PyVal):
